@@ -159,6 +159,63 @@ Section Generic.
   Qed.
 End Generic.
 
+Lemma firstn_mono_in {A} (l : list A) : forall a b y, (a <= b)%nat -> In y (firstn a l) -> In y (firstn b l).
+Proof.
+  induction l as [|x t IH]; intros [|a] [|b] y Hle; cbn; try tauto; try lia.
+  intros [->|H]; [now left|right]. apply (IH a b); [lia|exact H].
+Qed.
+
+Lemma firstn_insert_in {A} (l1 l2 : list A) n : forall m y,
+  In y (firstn m (l1 ++ n :: l2)) -> y = n \/ In y (firstn m (l1 ++ l2)).
+Proof.
+  induction l1 as [|z l1 IH]; intros [|m] y; cbn; try tauto.
+  - intros [<-|H]; [now left|right]. apply (firstn_mono_in l2 m (S m)); [lia|exact H].
+  - intros [<-|H]; [right; now left|]. destruct (IH m y H); auto.
+Qed.
+
+(* ---- minimal disruption in its usual reading: who owns the top of the list ---- *)
+Section Top.
+  Variables key T : Type.
+  Variable ltb : T -> T -> bool.
+  Variable score : node -> key -> T.
+  Hypothesis ST : strict_total ltb.
+  Notation ordered := (ordered ltb score).
+  Notation tie_free := (tie_free score).
+
+  (* minimal disruption in its usual reading (ca_store.go:567 takes the top-1 volume of every
+     subdirectory): a key's top owner changes on AddNode only by moving TO the new node ... *)
+  Lemma add_top1 ns k n :
+    ~ In (label n) (map label ns) -> NoDup (map label ns) -> tie_free k (add_node n ns) ->
+    hd_error (ordered (add_node n ns) k) = Some n \/
+    hd_error (ordered (add_node n ns) k) = hd_error (ordered ns k).
+  Proof.
+    intros H1 H2 H3. destruct (add_only_inserts _ _ ltb score ST ns k n H1 H2 H3) as (l1 & l2 & E1 & E2).
+    rewrite E1, E2. destruct l1; cbn; auto.
+  Qed.
+
+  (* ... and on RemoveNode only by moving AWAY from the removed node *)
+  Lemma remove_top1 ns k l x :
+    NoDup (map label ns) -> tie_free k ns ->
+    hd_error (ordered ns k) = Some x -> label x <> l ->
+    hd_error (ordered (remove_node l ns) k) = Some x.
+  Proof.
+    intros H1 H2 Hx Hl. destruct (remove_only_removes _ _ ltb score ST ns k l H1 H2) as [E1 E2].
+    rewrite E1, E2. destruct (ordered ns k) as [|y t]; [discriminate|]. cbn in Hx. inversion Hx. subst y.
+    cbn. destruct (N.eqb (label x) l) eqn:E; [apply N.eqb_eq in E; congruence|reflexivity].
+  Qed.
+
+  (* the same for any top-n window: a node of the new top-n is the added node or was in the old top-n *)
+  Lemma add_topn ns k n m y :
+    ~ In (label n) (map label ns) -> NoDup (map label ns) -> tie_free k (add_node n ns) ->
+    In y (get_ordered_nodes ltb score (add_node n ns) k m) ->
+    y = n \/ In y (get_ordered_nodes ltb score ns k m).
+  Proof.
+    intros H1 H2 H3. unfold get_ordered_nodes.
+    destruct (add_only_inserts _ _ ltb score ST ns k n H1 H2 H3) as (l1 & l2 & E1 & E2).
+    rewrite E1, E2. apply firstn_insert_in.
+  Qed.
+End Top.
+
 (* all scores NaN (key not even-length hex): `<` is constantly false and the "sorted" list is
    the insertion order itself — such keys are outside the property's domain *)
 Lemma nan_keys_keep_insertion_order (key T : Type) (score : node -> key -> T) ns k :
